@@ -599,13 +599,10 @@ namespace link_layer {
         // invalid LLID
         if ( ( header & 0x3 ) != 0 )
         {
+            // The PDU is not stored and the receive packet counter is not incremented, so the PDU must not
+            // be acknowledged: next_expected_sequence_number_ stays as it is. If the PDU was a resent one,
+            // it was already acknowledged when it was received for the first time.
             acknowledge( header & nesn_flag );
-
-            // resent PDU?
-            if ( static_cast< bool >( header & sn_flag ) == next_expected_sequence_number_ )
-            {
-                next_expected_sequence_number_ = !next_expected_sequence_number_;
-            }
         }
 
         return next_transmit();
